@@ -140,9 +140,15 @@ def check(rac, col, vals, s, section_fn):
     got = observe(t, s)
     rac.case((tuple(col), selector_src(s)), nontrivial=len(exp["indices"]) > 0, sample=dict(column="".join(col) if len(col) < 9 else len(col),
                                                                                          selector=selector_src(s)))
+    k2 = False
+    if isinstance(s, str):
+        pat, cnt, _off = split(s)
+        if cnt is not None and pat in col:
+            others = {nm for nm in col if nm != pat and re.compile(pat, re.IGNORECASE).fullmatch(nm)}
+            k2 = bool(others)
     for view in ("rows", "indices", "mask"):
         if got[view] != exp[view]:
-            rac.fail(f"sel {''.join(col)} {selector_src(s)} {view}", f"C08 index column {list(col)}, s={list(vals['s'])}: rows.{view}[{selector_src(s)}]"
+            rac.fail(("K2:exact-name-shortcut " if k2 else "") + f"sel {''.join(col)} {selector_src(s)} {view}", f"C08 index column {list(col)}, s={list(vals['s'])}: rows.{view}[{selector_src(s)}]"
                      f" gives {got[view]}, the selector denotes {exp[view]}" if view != "rows" else
                      f"C08 index column {list(col)}, s={list(vals['s'])}: rows[{selector_src(s)}] gives {got[view]}, the selector denotes {exp[view]}",
                      PRELUDE + REF_SRC + f"col = {list(col)!r}; vals = {{'s': {list(vals['s'])!r}}}\nt = mk(col, vals['s'])\ns = {selector_src(s)}\n"
@@ -168,6 +174,16 @@ def main():
                 rac.sections["selectors"]["exhaustive"] = False
                 rac.exhaustive = False
                 break
+    rac.section("regex-names", "index columns over names that match one another as case-insensitive regular expressions ('mq.1', 'MQ.1', "
+                "'mqx1', 'mq11'): a selector that happens to equal a row name is still a full-match regular expression", "length 1..4 over 4 names")
+    RN = ("mq.1", "MQ.1", "mqx1", "mq11")
+    for n in range(1, 5):
+        for col in itertools.product(RN, repeat=n):
+            if rac.out_of_time(0.6):
+                break
+            vals = {"s": [float(i) - 1 for i in range(n)]}
+            for s in list(RN) + ["mq.1::0", "MQ.1::-1", "mq.1>>0", "mq..", "mqx1::0", "Mqx1", "mq11<<0"]:
+                check(rac, col, vals, s, "Table._get_regexp_indices")
     rac.section("composition", "rows[s1, s2] == rows[s1].rows[s2] (and indices / mask of the tuple describe the same rows) for "
                 "pairs of selectors", "columns of length 3..4, about 40 x 40 selector pairs", exhaustive=False)
     import numpy as np
